@@ -1082,7 +1082,7 @@ def bd1(ctx, R):
                 ok_seek = True
     R.check(ok_seek, "tdms_segment.TdmsSegment.read_raw_data_for_channel::seek past leading chunks", callee.where(),
             "seeks chunk_size * chunk_offset bytes past the data start", "leading chunks are not skipped by a relative seek of chunk size x chunk offset")
-    inner = calls_to(prog, callee, "tdms_segment.TdmsSegment._read_channel_data_chunks", callee.cls)
+    inner = [x for x in walk_body(callee.node) if isinstance(x, ast.Call) and (x.args or x.keywords)]
     ok_stop = False
     for x in inner:
         env, _g = sc.env_at(x)
